@@ -87,7 +87,10 @@ Record config := {
   c_main_cmds : list bytes;             (* commands registered through testscript.Main *)
   c_helper : bytes;                     (* name of the helper program *)
   c_helper_dir : bytes;                 (* the directory on PATH that holds it *)
-  c_watch : list bytes                  (* variables recorded by the probe command *)
+  c_watch : list bytes;                 (* variables recorded by the probe command *)
+  c_deadline : bool;    (* Params.Deadline is set and short: the context of the run expires while the
+                           script is blocked on a sleeping helper (never while anything else runs) *)
+  c_cancelled : bool    (* the context of the run is already done when the script starts *)
 }.
 
 (* ---- environment *)
